@@ -115,3 +115,33 @@ fn tree_input_inner(env: &Env, rng: &mut Rng) -> SvInput {
     }
     SvInput { text: mutate::token_mutate(&p, rng), kind: "corpus-tokmut", gram: Gram::Sv }
 }
+
+/// very small inputs for the interpreter legs (Miri runs ~4 orders of magnitude slower than native)
+pub const TINY_SV: &[&str] = &[
+    "module m; endmodule\n",
+    "module m(input a, output b); assign b = a; endmodule\n",
+    "module m; wire [3:0] w = 4'h3; endmodule",
+    "package p; localparam X = 1; endpackage\n",
+    "class c; int x; endclass",
+    "interface i; logic l; endinterface",
+    "module m; initial begin a = 1; end endmodule",
+    "`define A 1\nmodule m; wire w = `A; endmodule\n",
+    "module m; // c\n/* é */ wire \\e+1 ; endmodule",
+    "module m; `celldefine wire w; endmodule",
+    "`timescale 1ns/1ps\nmodule m; endmodule",
+    "module m; string s = \"a\\n\"; endmodule",
+    "`define F(a) a+1\nmodule m; assign x = `F(2); endmodule",
+    "`ifdef A\nmodule a; endmodule\n`else\nmodule b; endmodule\n`endif\n",
+    "module m; sub u (.a(1)); endmodule",
+    "function int f(input int a); return a; endfunction",
+];
+
+pub const TINY_LIB: &[&str] = &["library l a.v;\n", "include b.map ;", "library l \"a b.v\" , c.v -incdir d ;\n", "; ;"];
+
+pub fn tiny_input(rng: &mut Rng) -> SvInput {
+    if rng.chance(1, 5) {
+        SvInput { text: rng.pick(TINY_LIB).to_string(), kind: "tiny-lib", gram: Gram::Lib }
+    } else {
+        SvInput { text: rng.pick(TINY_SV).to_string(), kind: "tiny-sv", gram: Gram::Sv }
+    }
+}
